@@ -27,6 +27,15 @@ Streams (all on the real ``Ptychography`` class, tiny CPU float32 problems from 
                   call (optimizers dict → LR history, zero back-fill / 0.0 for removed), the
                   symbolic iteration machine (which parameter has optimizer state, in which order,
                   after how many steps), the attribute projection of save (skip list)
+  g6 (growth 6)   fixed blocks of c05_g6.py (every seed, no time guard): 12 iterations with store_snapshots=True (checkpoints holding
+                  10 / 11 / 12 snapshots and histories of two-digit length, zip and dir, LR ramp end and plateau reductions on both
+                  sides of the checkpoint), 6x12 and 12x6 scans with learned positions through every reload path, clone() / reload
+                  while the dataset has no optimizer followed by a "dataset" entry in optimizer_params on BOTH objects (deepcopy and
+                  fallback path; the is-identity walk is repeated after the continuation), and `double`: save → run → save →
+                  from_file(first) twice → continue both → save/from_file of a reloaded object → from_file(second) → continue
+  trace-live      every traced zero_grad_all(): .grad presence per parameter before / after it and right before the following
+                  step_optimizers() against Model/CheckpointLive.lean (zeroGradAll, backwardAcc); stale gradients on models
+                  without optimizer occur in the staged histories
 The property predicate (resume equivalence, reload reports the same) is evaluated on the real
 code's observables only; the model is not involved in it.
 """
@@ -38,15 +47,16 @@ LEVEL = "proof"
 EXTRA_PROPS = ["QuantemModel.Props.C05Ext"]   # growth 6: the transient .grad tensors (live loop = .grad-free iteration)
 MANIFEST_ENTRY = {
     "category": "proof",
-    "text": "Lean 4 theorems over a protocol-level model of Ptychography checkpointing (Model/Checkpoint.lean + Model/CheckpointSession.lean): an abstract full-batch iteration (loss, gradient-presence, per-parameter optimizer update and scheduler are parameters of every theorem) over a concrete state — per-model parameter lists, torch-style optimizer state keyed by parameter in insertion order, stored optimizer / scheduler configuration, LR bookkeeping of _record_iter, constraints — with save = skip-list projection composed with the C01 serializer model, from_file = C01 load + re-binding by reconnect_optimizer_to_parameters, clone = save/load fallback, and ONE reconstruct(...) CALL modelled branch by branch in source order including every branch that raises part-way (batch_size setter, reset_recon = parameter re-creation + optimizer rebuild with the re-binding on failure, constraints setter, optimizer_params setter + set_optimizers, scheduler_params setter, set_schedulers, _set_targets, the loop). Proved: resume equivalence iter^[n-k](fromFile(save(iter^[k] r))) = iter^[n] r for every split k <= n, every step function and every well-formed state; the same OVER EVERY HISTORY OF CALLS, accepted or rejected at any stage, split after any prefix (resume_eq_history_checkpoint / _clone), from the exception-safety invariant that every call keeps every optimizer bound to the live parameters (call_keeps_invariant, history_keeps_invariant, reset_recon_exception_safe: holds whatever the optimizers were bound to before), with a counterexample for reset_recon before the repair (reset_unrepaired_counterexample: the rejected reset leaves the optimizer on the discarded tensor, the uninterrupted run stops training, the reloaded one does not); the re-binding keeps every parameter's moments for every state (keyed by parameter), whereas the former positional re-keying keeps them iff the state keys are a prefix of the parameter list (counterexample); _record_iter keeps every LR history as long as the iteration count and equals the per-iteration lookup with 0.0 for absent optimizers, for every sequence of iterations/resets with optimizers added or removed. Tied to the code on every run by a run-level differential check on real reconstructions (optimizers sgd/adam/adamw x LRs x schedulers none/plateau/exp/cyclic/linear x object types x 1-2 probe modes x 1-2 slices x zip/dir x every split point; session histories with rejected calls, staged optimisation, autograd on/off and alternative argument forms with every call a split point), by replaying the recorded event trace (optimizer-state key order before/after .to(), LR bookkeeping, which parameters have state) on the Lean model, and by running the call-level model next to the real session and comparing after every call: raised or not, optimizer / scheduler / stored configuration per model, optimizer bound to the live parameters, scheduler attached to the live optimizer, iteration count, LR-history keys and lengths. The source object is continued as well (before or after its clone), clone/reload must share no Parameter/optimizer/scheduler/model object with the source, and checkpoints re-saved with mode='o' over an older checkpoint of the same path must reload as saved.",
-    "note": "Partial by nature: Lean proves that resume equivalence follows from component-wise round trip + re-binding + bookkeeping + exception safety of the call level on the model; that torch's pickled modules/optimizers/schedulers really round-trip (the Pickle hypothesis of the theorems) and that the real numerical run is reproduced to tolerance is measured on every run, not proved. Transient .grad tensors (never in a checkpoint) are not in the model: that stale gradients of a model without optimizer are never consumed is measured by the staged-optimisation histories only. Full-batch only; the batch order is pinned through the public rng setter in the deterministic stream and left to the library in the natural stream. DIP/parametric models, validation splits and GPU device moves are not exercised.",
+    "text": "Lean 4 theorems over a protocol-level model of Ptychography checkpointing (Model/Checkpoint.lean + Model/CheckpointSession.lean): an abstract full-batch iteration (loss, gradient-presence, per-parameter optimizer update and scheduler are parameters of every theorem) over a concrete state — per-model parameter lists, torch-style optimizer state keyed by parameter in insertion order, stored optimizer / scheduler configuration, LR bookkeeping of _record_iter, constraints — with save = skip-list projection composed with the C01 serializer model, from_file = C01 load + re-binding by reconnect_optimizer_to_parameters, clone = save/load fallback, and ONE reconstruct(...) CALL modelled branch by branch in source order including every branch that raises part-way (batch_size setter, reset_recon = parameter re-creation + optimizer rebuild with the re-binding on failure, constraints setter, optimizer_params setter + set_optimizers, scheduler_params setter, set_schedulers, _set_targets, the loop). Proved: resume equivalence iter^[n-k](fromFile(save(iter^[k] r))) = iter^[n] r for every split k <= n, every step function and every well-formed state; the same OVER EVERY HISTORY OF CALLS, accepted or rejected at any stage, split after any prefix (resume_eq_history_checkpoint / _clone), from the exception-safety invariant that every call keeps every optimizer bound to the live parameters (call_keeps_invariant, history_keeps_invariant, reset_recon_exception_safe: holds whatever the optimizers were bound to before), and for the loop WITH its transient .grad tensors (Props/C05Ext: liveIter_fst / liveIterate_fst — zero_grad_all, accumulating backward, step_optimizers do to the reconstruction exactly what the .grad-free iteration does, for EVERY content of .grad incl. stale never-zeroed gradients of models without optimizer; live_resume_eq_checkpoint / _clone — resume equivalence of the live loop although .grad is not in the file; zero_after_counterexample — false for 'zero_grad after the step'); with a counterexample for reset_recon before the repair (reset_unrepaired_counterexample: the rejected reset leaves the optimizer on the discarded tensor, the uninterrupted run stops training, the reloaded one does not); the re-binding keeps every parameter's moments for every state (keyed by parameter), whereas the former positional re-keying keeps them iff the state keys are a prefix of the parameter list (counterexample); _record_iter keeps every LR history as long as the iteration count and equals the per-iteration lookup with 0.0 for absent optimizers, for every sequence of iterations/resets with optimizers added or removed. Tied to the code on every run by a run-level differential check on real reconstructions (optimizers sgd/adam/adamw x LRs x schedulers none/plateau/exp/cyclic/linear x object types x 1-2 probe modes x 1-2 slices x zip/dir x every split point; session histories with rejected calls, staged optimisation, autograd on/off and alternative argument forms with every call a split point), by replaying the recorded event trace (optimizer-state key order before/after .to(), LR bookkeeping, which parameters have state) on the Lean model, and by running the call-level model next to the real session and comparing after every call: raised or not, optimizer / scheduler / stored configuration per model, optimizer bound to the live parameters, scheduler attached to the live optimizer, iteration count, LR-history keys and lengths. The source object is continued as well (before or after its clone), clone/reload must share no Parameter/optimizer/scheduler/model object with the source, and checkpoints re-saved with mode='o' over an older checkpoint of the same path must reload as saved.",
+    "note": "Partial by nature: Lean proves that resume equivalence follows from component-wise round trip + re-binding + bookkeeping + exception safety of the call level on the model; that torch's pickled modules/optimizers/schedulers really round-trip (the Pickle hypothesis of the theorems) and that the real numerical run is reproduced to tolerance is measured on every run, not proved. Transient .grad tensors (never in a checkpoint) are in the model since growth 6 (Model/CheckpointLive.lean): that stale gradients are never consumed is proved from the loop order zero_grad_all → backward → step_optimizers and from 'zero_grad clears the param group the step reads'; the stream trace-live compares the .grad presence masks around every traced zero_grad_all with the model, the torch semantics of accumulation itself stays trusted. Snapshots (_snapshots) are not in the Lean model: their round trip (order and content, also with more than ten stored) is measured by the reports predicate on fixed blocks. Full-batch only; the batch order is pinned through the public rng setter in the deterministic stream and left to the library in the natural stream. DIP/parametric models, validation splits and GPU device moves are not exercised.",
     "technique": "Lean 4 proof (iterate/induction over call histories, invariants incl. rejected calls, list lemmas, reuse of C01/C14 round-trip theorems) + run-level differential check, event-trace and call-level session correspondence",
 }
-RULE = ("one case = one (configuration, split point): real runs (uninterrupted, save/from_file/continue, clone/continue, saved source continued); "
+RULE = ("(growth 6: a `double` case = one configuration with two checkpoints, five continued objects) one case = one (configuration, split point): real runs (uninterrupted, save/from_file/continue, clone/continue, saved source continued); "
         "distinct non-trivial = distinct (optimizer types, schedulers, optimized keys, object type, probes, slices, store, raw, "
         "program shape, split position class first/inner/last, pinned|natural; for session histories also the sequence of call kinds "
         "incl. the kind of every rejected call, the split call, autograd, from_file device) with at least one iteration in total")
-TRUSTED = ["torch.save/torch.load (pickle) of whole nn.Module objects incl. their optimizer and scheduler: hypothesis `Pickle` of the theorems, observed by the reports/resume streams",
+TRUSTED = ["loss.backward() accumulates into .grad of the leaves it reaches and leaves the others alone; optimizer.zero_grad() sets .grad of its param group to None (the `accum` / `zeroModel` of Model/CheckpointLive.lean; presence masks compared by trace-live)",
+           "torch.save/torch.load (pickle) of whole nn.Module objects incl. their optimizer and scheduler: hypothesis `Pickle` of the theorems, observed by the reports/resume streams",
            "torch optimizers are per-parameter updates that skip parameters whose .grad is None (the abstract `upd`/`grad` of the model); LR schedulers are functions of (scheduler state, loss, lr)",
            "the classification of a call's arguments handed to the call-level model (valid / unknown key, known / unknown / 'none' optimizer and scheduler type, accepted / rejected keyword, batch size, loss type) is computed by the harness from the arguments and the DEFAULT_CONSTRAINTS tables of the real classes; that the library rejects exactly these is what the trace-session stream compares",
            "NumPy Generator / torch CPU kernels are deterministic for equal seeds and thread count (one thread; measured: pinned stream deviation 0)"]
@@ -57,6 +67,7 @@ ASSUMPTIONS = ["'continuing with the same calls': the call program is split at t
                "tolerances: relative to the largest magnitude of the uninterrupted observable; pinned 1e-6 (measured: exactly 0), natural 1e-5 (property text). In the natural stream the floating-point observables are judged only for well-conditioned cases: the uninterrupted run is repeated with two other full-batch orders and must move by <= 2e-7 (measured: among 668 cases judged at a 5e-7 floor the largest reload/clone deviation was 4.9e-6, so the floor was tightened to keep a margin below 1e-5); otherwise (Adam-amplified rounding noise, large cyclic LRs) only iteration count, constraints and LR-history keys/lengths are judged there and the pinned stream judges the same case deterministically",
                "schedulers are given explicit parameters (gamma, total_iters, step sizes) so that a split call builds the same scheduler as the unsplit one would",
                "clone()'s in-memory path (copy.deepcopy succeeds only for a dataset built with learn_scan_positions=False) is exercised by a fixed block of configurations, every split point",
+               "two checkpoints in one history (c05_g6.double_case): the uninterrupted object and every arm execute p.rng = 3001 before the middle leg and p.rng = 3002 before the last leg; all checkpoints with save_raw_data=True",
                "quick tier: the forced configurations and the session histories run every (call-boundary) split; random single-run configurations with more than four split points run the first, the one after one iteration, the last and one random split (thorough: every split point)"]
 EXPLANATION = ("Theorems in Props/C05.lean are about Model/Checkpoint.lean + Model/CheckpointSession.lean (which import the C01 serializer model); each run performs real "
                "reconstructions with every split point — also call histories with rejected calls and staged optimisation — compares uninterrupted/reloaded/cloned runs, "
